@@ -21,6 +21,20 @@ theorem iterCount_sep (c : Cfg) (hS : SepClass c) (k : Comp) (hk : k = .integer 
   · simp [Bytes.iterCount, hS.int, adv, hS.format]
   · simp [Bytes.iterCount, hS.frac, adv, hS.format]
 
+/-- a non-contiguous component iterator exists only with the `format` feature -/
+theorem format_of_iter {c : Cfg} {k : Comp} (h : c.iterContiguous k = false) : c.feats.format = true := by
+  cases hf : c.feats.format
+  · cases k <;> simp [Cfg.iterContiguous, Cfg.sepFlags, Cfg.specialSep, Cfg.flag, hf, SepFlags.any] at h
+  · rfl
+
+/-- `<iterator>::current_count` after `n` digits of the integer / fraction component: `n` more, whatever the format -/
+theorem iterCount_rel (c : Cfg) (k : Comp) (hk : k = .integer ∨ k = .fraction) (n : Nat) (b : Bytes) :
+    Bytes.iterCount c k (adv c k n b) - Bytes.iterCount c k b = n := by
+  cases hc : c.iterContiguous k
+  · have hf := format_of_iter hc
+    rcases hk with rfl | rfl <;> simp [Bytes.iterCount, hc, adv, hf]
+  · simp [Bytes.iterCount, hc]
+
 theorem iterCount_plain (c : Cfg) (hP : PlainClass c) (k : Comp) (n : Nat) (b : Bytes) :
     Bytes.iterCount c k (adv c k n b) - Bytes.iterCount c k b = n := by
   simp [Bytes.iterCount, hP.contig k, Bytes.currentCount, hP.bytes]
@@ -106,7 +120,7 @@ theorem u64Spec_digits (r : Nat) (hr : r ≤ 10) : ∀ (bs rest : List Nat) (m s
 /-- 8-digit part of `parse_u64_digits` on a contiguous iterator -/
 theorem u64Loop8_spec (c : Cfg) (k : Comp) (hd : c.debug = false) (hr : c.mantissaRadix ≤ 10) :
     ∀ (fuel : Nat) (b : Bytes) (m st : Nat), b.slc.length - b.index < fuel →
-      ∃ j m1, u64Loop8 c k fuel b m st = .ok ({ b with index := b.index + 8 * j }, m1, st - 8 * j) ∧
+      ∃ j m1, u64Loop8 c k fuel b m st = .ok (adv c k (8 * j) b, m1, st - 8 * j) ∧
         u64Spec c.mantissaRadix (b.slc.drop b.index) m st =
           ((u64Spec c.mantissaRadix (b.slc.drop (b.index + 8 * j)) m1 (st - 8 * j)).1 + 8 * j,
            (u64Spec c.mantissaRadix (b.slc.drop (b.index + 8 * j)) m1 (st - 8 * j)).2.1,
@@ -120,13 +134,14 @@ theorem u64Loop8_spec (c : Cfg) (k : Comp) (hd : c.debug = false) (hr : c.mantis
     by_cases hst : st > 8
     · simp only [hst, if_true]
       rcases tryParse8_cases c k b hd with h | ⟨bs, hl, hdrop, hle, h8, h⟩
-      · exact ⟨0, m, by simp [h, bind, Except.bind, pure, Except.pure], by simp⟩
-      · obtain ⟨j, m1, h1, h2⟩ := ih { b with index := b.index + 8 }
-          ((m * radix8 c.mantissaRadix + val8Digits c.mantissaRadix bs) % pow2_64) (st - 8) (by simp only; omega)
-        simp only at h1 h2
+      · exact ⟨0, m, by simp [h, bind, Except.bind, pure, Except.pure, adv_zero], by simp⟩
+      · obtain ⟨j, m1, h1, h2⟩ := ih (adv c k 8 b)
+          ((m * radix8 c.mantissaRadix + val8Digits c.mantissaRadix bs) % pow2_64) (st - 8)
+          (by simp only [adv_slc, adv_index]; omega)
+        simp only [adv_slc, adv_index, adv_add] at h1 h2
         refine ⟨j + 1, m1, ?_, ?_⟩
         · simp only [h, bind, Except.bind, h1]
-          have e1 : b.index + 8 + 8 * j = b.index + 8 * (j + 1) := by omega
+          have e1 : 8 + 8 * j = 8 * (j + 1) := by omega
           have e2 : st - 8 - 8 * j = st - 8 * (j + 1) := by omega
           rw [e1, e2]
         · have e1 : b.index + 8 * (j + 1) = b.index + 8 + 8 * j := by omega
@@ -134,7 +149,30 @@ theorem u64Loop8_spec (c : Cfg) (k : Comp) (hd : c.debug = false) (hr : c.mantis
           rw [e1, e2, hdrop, u64Spec_digits _ hr bs _ m st h8 (by omega), hl, ← val8_step _ _ _ hr hl, h2]
           refine Prod.ext ?_ rfl
           simp only; omega
-    · exact ⟨0, m, by simp [hst, pure, Except.pure], by simp⟩
+    · exact ⟨0, m, by simp [hst, pure, Except.pure, adv_zero], by simp⟩
+
+/-- `parse_u64_digits` of **any** valid format on separator-free input -/
+theorem parseU64_rel (c : Cfg) (k : Comp) (hS : RelClass c) (b : Bytes) (m st : Nat) (hn : NoSep c b.slc) :
+    parseU64Digits c k b m st =
+      .ok (adv c k (u64Spec c.mantissaRadix (b.slc.drop b.index) m st).1 b,
+           (u64Spec c.mantissaRadix (b.slc.drop b.index) m st).2.1,
+           (u64Spec c.mantissaRadix (b.slc.drop b.index) m st).2.2) := by
+  unfold parseU64Digits
+  by_cases hm : (!c.feats.compact && canMultidigit c k) = true
+  · have hr : c.mantissaRadix ≤ 10 := by
+      simp only [canMultidigit, Bool.and_eq_true, Bool.or_eq_true, Bool.not_eq_true',
+        decide_eq_true_eq] at hm
+      rcases hm.2.2 with h | h
+      · exact hS.radix h
+      · exact h
+    obtain ⟨j, m1, h1, h2⟩ := u64Loop8_spec c k hS.debug hr (b.slc.length + 1) b m st (by omega)
+    simp only [hm, if_true, hS.debug, Bool.false_and, Bool.false_eq_true, if_false, h1, bind, Except.bind]
+    rw [u64Loop1_nosep c k hS.debug (hS.reach k) _ _ m1 (st - 8 * j) (by simpa using hn)
+      (by simp only [adv_slc, adv_index]; omega)]
+    simp only [adv_slc, adv_index, adv_add, h2]
+    rw [Nat.add_comm (8 * j)]
+  · simp only [hm, Bool.false_eq_true, if_false, pure, Except.pure, bind, Except.bind]
+    exact u64Loop1_nosep c k hS.debug (hS.reach k) _ b m st hn (by omega)
 
 theorem parseU64_sep (c : Cfg) (k : Comp) (hd : c.debug = false) (hk : c.skip k ≠ .unreachable)
     (hc : c.iterContiguous k = false) (b : Bytes) (m st : Nat) (hn : NoSep c b.slc) :
@@ -151,24 +189,7 @@ theorem parseU64_plain (c : Cfg) (k : Comp) (hP : PlainClass c) (b : Bytes) (m s
     ∃ e, e.slc = b.slc ∧ e.index = b.index + (u64Spec c.mantissaRadix (b.slc.drop b.index) m st).1 ∧
       parseU64Digits c k b m st =
         .ok (e, (u64Spec c.mantissaRadix (b.slc.drop b.index) m st).2.1,
-             (u64Spec c.mantissaRadix (b.slc.drop b.index) m st).2.2) := by
-  unfold parseU64Digits
-  by_cases hm : (!c.feats.compact && canMultidigit c k) = true
-  · have hr : c.mantissaRadix ≤ 10 := by
-      simp only [canMultidigit, hP.contig k, Bool.true_and, Bool.and_eq_true, Bool.or_eq_true, Bool.not_eq_true',
-        decide_eq_true_eq] at hm
-      rcases hm.2 with h | h
-      · exact hP.radix h
-      · exact h
-    obtain ⟨j, m1, h1, h2⟩ := u64Loop8_spec c k hP.debug hr (b.slc.length + 1) b m st (by omega)
-    have hn : NoSep c ({ b with index := b.index + 8 * j } : Bytes).slc := hP.noSep _
-    refine ⟨adv c k (u64Spec c.mantissaRadix (b.slc.drop (b.index + 8 * j)) m1 (st - 8 * j)).1
-      { b with index := b.index + 8 * j }, by simp, ?_, ?_⟩
-    · rw [h2]; simp only [adv_index]; omega
-    · simp only [hm, if_true, hP.debug, Bool.false_and, Bool.false_eq_true, if_false, h1, bind, Except.bind]
-      rw [u64Loop1_nosep c k hP.debug (hP.reach k) _ _ m1 (st - 8 * j) hn (by simp only; omega), h2]
-  · refine ⟨adv c k (u64Spec c.mantissaRadix (b.slc.drop b.index) m st).1 b, by simp, by simp, ?_⟩
-    simp only [hm, Bool.false_eq_true, if_false, pure, Except.pure, bind, Except.bind]
-    exact u64Loop1_nosep c k hP.debug (hP.reach k) _ b m st (hP.noSep _) (by omega)
+             (u64Spec c.mantissaRadix (b.slc.drop b.index) m st).2.2) :=
+  ⟨_, by simp, by simp, parseU64_rel c k hP.rel b m st (hP.noSep _)⟩
 
 end LexVerif.Proof.Sep
